@@ -64,12 +64,12 @@ Definition spec_contrib (f : sfield) (vals : vals_t) : list la :=
       | VList [] =>
           (* nothing to join: no value argument, so a plain flag is left out too; inside a template the empty text
              is substituted like any other (words that become empty vanish) *)
-          match sf_ty f with
+          match optional_type (sf_ty f) with
           | TMulti => []
           | _ => if has_ph ws && negb dots then occ [] else []
           end
       | VList l =>
-          match sf_ty f with
+          match optional_type (sf_ty f) with
           | TMulti => List.concat (map (fun a => occ (render_atom a)) l)          (* one occurrence per element *)
           | _ =>
               if dots then List.concat (map (fun a => occ (render_atom a)) l)       (* '...': repeated *)
@@ -149,7 +149,7 @@ Definition field_ok (f : sfield) (vals : vals_t) : bool :=
   | SANone => true
   | SA ws dots =>
       forallb word_ok ws && dots_text_ok (sf_name f) ws dots &&
-      match lookup vals (sf_name f), sf_ty f with
+      match lookup vals (sf_name f), optional_type (sf_ty f) with
       | VNone, _ => true
       | VBool _, TBool => negb (has_ph ws) && negb dots
       | VAtom a, (TStr | TInt | TFloat | TPath) => atom_ok ws a && inert ws vals (render_atom a)
@@ -188,7 +188,7 @@ Definition c22_in_domain (fm : form) (e : exe) (fs : list sfield) (vals : vals_t
 Definition C23_statement : Prop :=
   forall (f : sfield) (vals : vals_t) (argstr : la),
     render_argstr (sf_name f) (sf_argstr f) = Some argstr ->
-    (match sf_ty f with TBool => False | _ => True end) ->
+    (match optional_type (sf_ty f) with TBool => False | _ => True end) ->
     lookup vals (sf_name f) <> VNone ->
     command_pos_args (to_field f) vals = Good (Some (sf_pos f, spec_contrib f vals)).
 
